@@ -48,8 +48,7 @@ theorem C15_at_limit (mh : Nat) (peers : List Node) (self frm clock : Nat) (a : 
 
 structure Inv (s : Net) : Prop where
   entries : ∀ x e, e ∈ (s.nodes x).entries → e.path.length ≤ s.maxHops
-  flight : ∀ f, f ∈ s.flight → f.adv.seenBy ≠ [] ∧ (f.adv.wd = true → f.adv.path = []) ∧
-    (f.adv.path.length ≤ s.maxHops ∨ (f.adv.seenBy.length = 1 ∧ f.adv.path.length ≤ s.maxHops + 1))
+  flight : ∀ f, f ∈ s.flight → (f.adv.wd = true → f.adv.path = []) ∧ f.adv.path.length ≤ s.maxHops
 
 theorem inv_init (n mh : Nat) (L : Node → List RAd) : Inv (init n mh L) where
   entries := by
@@ -57,6 +56,10 @@ theorem inv_init (n mh : Nat) (L : Node → List RAd) : Inv (init n mh L) where
     rw [(initNode_entries x (L x) e he).1]
     exact Nat.zero_le _
   flight := by intro f hf; simp [init] at hf
+
+theorem hopCap_le {mh : Nat} (h : mh > 0) : hopCap mh ≤ mh := by
+  unfold hopCap maxWireAgents
+  split <;> omega
 
 theorem inv_step {s : Net} {op : Op} (hmh : s.maxHops > 0) (hI : Inv s) : Inv (step s op) where
   entries := by
@@ -78,20 +81,19 @@ theorem inv_step {s : Net} {op : Op} (hmh : s.maxHops > 0) (hI : Inv s) : Inv (s
     | old h => exact hI.flight f h
     | ann hint hop ha hd hadv =>
       have h := mem_announceAdvs hadv
-      exact ⟨by rw [h.seenBy]; simp, (fun hw => by rw [h.wd] at hw; cases hw),
-        Or.inl (by rw [h.path]; simp; omega)⟩
+      exact ⟨(fun hw => by rw [h.wd] at hw; cases hw), by rw [h.path]; simp; omega⟩
     | wdr hop ha hcidr hd hadv =>
       rw [hadv]
-      exact ⟨by simp [withdrawAdv], by simp [withdrawAdv], Or.inl (by simp [withdrawAdv])⟩
-    | fwd a m hm hl ha hb hd hne hns hself hseen hsb hlim hadv =>
+      exact ⟨by simp [withdrawAdv], by simp [withdrawAdv]⟩
+    | fwd a m hm hl ha hb hd hne hns hself hseen hsb hlim hwire hadv =>
       rw [hadv]
-      obtain ⟨_, hwp, _⟩ := hI.flight _ hm
+      obtain ⟨hwp, _⟩ := hI.flight _ hm
       cases hwd : m.wd with
       | true =>
-        refine ⟨by simp, (fun _ => by rw [fwdAdv_path_wd hwd]; exact hwp hwd), Or.inl ?_⟩
+        refine ⟨(fun _ => by rw [fwdAdv_path_wd hwd]; exact hwp hwd), ?_⟩
         rw [fwdAdv_path_wd hwd, hwp hwd]; simp
       | false =>
-        refine ⟨by simp, (fun h => by rw [fwdAdv_wd, hwd] at h; cases h), Or.inl ?_⟩
+        refine ⟨(fun h => by rw [fwdAdv_wd, hwd] at h; cases h), ?_⟩
         have hlim' := hlim hwd
         simp only [tick_maxHops, hopsOf, ge_iff_le, not_and, Nat.not_le] at hlim'
         have := hlim' hmh
@@ -100,24 +102,19 @@ theorem inv_step {s : Net} {op : Op} (hmh : s.maxHops > 0) (hI : Inv s) : Inv (s
         split at this <;> omega
     | rep ord hop ha hb hl hadv =>
       have h := mem_replayAdvs hadv
-      refine ⟨by rw [h.seenBy]; simp, (fun hw => by rw [h.wd] at hw; cases hw),
-        Or.inr ⟨by rw [h.seenBy]; rfl, ?_⟩⟩
-      obtain ⟨p, hp, hcase⟩ := h.path
-      rw [hp]
-      rcases hcase with ⟨hp0, _⟩ | ⟨_, e, he, _, _, hpe⟩
-      · rw [hp0]; simp
-      · have := hI.entries _ e he
-        rw [← hpe]
-        simp only [List.length_cons]; omega
+      refine ⟨(fun hw => by rw [h.wd] at hw; cases hw), ?_⟩
+      have := h.plen
+      have := hopCap_le hmh
+      simp only [tick_maxHops] at *
+      omega
 
 /-- C15: with a configured limit `maxHops ≥ 1`, in every reachable state no agent holds a route
-    whose path is longer than the limit, and every frame in flight that was forwarded by an agent
-    (seen-by list longer than one: it is neither a fresh announcement nor a table replay) carries a
-    path of at most `maxHops` agents. -/
+    whose path is longer than the limit, and no frame in flight — forwarded copy, fresh announcement
+    or table replay — carries a path of more than `maxHops` agents. -/
 def C15_statement : Prop :=
   ∀ (n mh : Nat) (L : Node → List RAd) (ops : List Op), mh > 0 →
     (∀ x e, e ∈ ((run (init n mh L) ops).nodes x).entries → e.path.length ≤ mh) ∧
-    (∀ f, f ∈ (run (init n mh L) ops).flight → f.adv.seenBy.length ≠ 1 → f.adv.path.length ≤ mh)
+    (∀ f, f ∈ (run (init n mh L) ops).flight → f.adv.path.length ≤ mh)
 
 theorem C15_holds : C15_statement := by
   intro n mh L ops hmh
@@ -134,10 +131,40 @@ theorem C15_holds : C15_statement := by
   · intro x e he
     have := hI.entries x e he
     omega
-  · intro f hf hlen
-    rcases (hI.flight f hf).2.2 with h | ⟨h, _⟩
-    · omega
-    · exact absurd h hlen
+  · intro f hf
+    have := (hI.flight f hf).2
+    omega
+
+/-- The one-byte counts of the wire format never wrap: whatever the limit (even disabled), no
+    advertisement in flight lists more than 255 agents in its path or its seen-by list.
+    (`floodAdvertisementEncrypted` stops forwarding at 255 entries, `SendFullTable` does not
+    replay a path of more than min(max_hops, 255) agents — fixes/C15-wire-count-replay.patch.) -/
+theorem C15_no_wrap (n mh : Nat) (L : Node → List RAd) (ops : List Op) :
+    ∀ f, f ∈ (run (init n mh L) ops).flight → f.adv.wd = false →
+      f.adv.path.length ≤ 255 ∧ f.adv.seenBy.length ≤ 255 := by
+  apply run_induction (P := fun s => ∀ f, f ∈ s.flight → f.adv.wd = false →
+      f.adv.path.length ≤ 255 ∧ f.adv.seenBy.length ≤ 255) _ ops
+  · intro f hf; simp [init] at hf
+  · intro s op hI f hf hw
+    cases flight_step hf with
+    | old h => exact hI f h hw
+    | ann hint hop ha hd hadv =>
+      have h := mem_announceAdvs hadv
+      rw [h.path, h.seenBy]; simp
+    | wdr hop ha hcidr hd hadv => rw [hadv] at hw; simp [withdrawAdv] at hw
+    | fwd a m hm hl ha hb hd hne hns hself hseen hsb hlim hwire hadv =>
+      have hw' : m.wd = false := by rw [hadv, fwdAdv_wd] at hw; exact hw
+      obtain ⟨h1, h2⟩ := hwire hw'
+      rw [hadv, fwdAdv_path hw', fwdAdv_seenBy]
+      simp only [List.length_cons, List.length_append, List.length_nil, maxWireAgents] at *
+      omega
+    | rep ord hop ha hb hl hadv =>
+      have h := mem_replayAdvs hadv
+      have h1 := h.plen
+      have : hopCap (tick s).maxHops ≤ 255 := by unfold hopCap maxWireAgents; split <;> omega
+      rw [h.seenBy]
+      simp only [List.length_cons, List.length_nil]
+      omega
 
 /-- The statement is about something: on the chain 0-1-2-3-4 with limit 2 the announcement of agent
     0 is stored by agents 1 and 2, agent 2 does not forward it, agents 3 and 4 never see it. -/
